@@ -217,6 +217,10 @@ class Exec:
         todo = list(covered)
         while todo:
             d0 = todo.pop()
+            o0 = ORIGIN.get(d0)
+            if o0 is not None and not isinstance(o0, frozenset) and o0 not in covered:
+                covered.add(o0)
+                todo.append(o0)
             dd = DERIVED.get(d0)
             for p, _inv in ((dd if isinstance(dd, list) else [dd]) if dd else []):
                 if not isinstance(p, frozenset) and p not in covered:
@@ -302,8 +306,9 @@ class Exec:
             return outs
         acc, val = outs[0]
         for e, v in outs[1:]:
+            old_ = acc
             acc = self.join_env(acc, e)
-            val = self.join(val, v, acc)
+            val = self.join_sided(val, old_, v, e, acc)
         return [(acc, val)]
 
     def do_raise(self, st, env):
@@ -351,7 +356,10 @@ class Exec:
                     base.elems[c] = v
                 else:
                     base.elems[:] = [self.join(x, v, env) for x in base.elems]
-            # dict/list stores on other objects: ignored (no aliasing model in the prototype)
+            elif base.__class__.__name__ == 'DictV':
+                # a dict literal that is written to: its key set is no longer known
+                env.replace_value(base, Opaque('dict'))
+            # list stores on other objects: ignored (no aliasing model in the prototype)
         elif isinstance(target, ast.Attribute):
             self.eval(target.value, env)
         else:
